@@ -1,4 +1,4 @@
-import SplinkVerif.Model.CC
+import SplinkVerif.Lemmas.CC
 /-!
 # C05 — clusters are exactly the connected components of the thresholded graph
 
@@ -13,6 +13,40 @@ open SplinkVerif SplinkVerif.CC
 /-- Adjacency of the thresholded graph on nodes `0..n-1` (edges are undirected). -/
 def Adj (n : Nat) (edges : List Edge) (i j : Nat) : Prop :=
   i < n ∧ j < n ∧ ((i, j) ∈ edges ∨ (j, i) ∈ edges)
+
+/-- The loop exits because no row needs updating — never because the fuel
+(`n*n+1` passes) ran out: the model's `run` *is* the unbounded `while` loop. -/
+theorem run_terminates (n : Nat) (edges : List Edge) (hE : ∀ e ∈ edges, e.1 < n ∧ e.2 < n) :
+    updCount n (run n edges) = 0 :=
+  Lemmas.run_updCount_zero n edges hE
+
+/-- Every input record is returned exactly once. -/
+theorem each_node_once (n : Nat) (edges : List Edge) (hE : ∀ e ∈ edges, e.1 < n ∧ e.2 < n) :
+    ((cluster n edges).map (·.1)).Perm (List.range n) :=
+  Lemmas.cluster_nodes_perm n edges hE
+
+/-- Main theorem: the cluster id of every node is the smallest node reachable
+from it — so clusters are exactly the connected components and the id is the
+minimum member. -/
+theorem run_correct (n : Nat) (edges : List Edge) (hE : ∀ e ∈ edges, e.1 < n ∧ e.2 < n) :
+    ∀ i c, (i, c) ∈ cluster n edges →
+      Reach (Adj n edges) i c ∧ ∀ j, Reach (Adj n edges) i j → c ≤ j :=
+  Lemmas.cluster_is_min_reachable n edges hE
+
+/-- Two records share a cluster id iff they are joined by a path of kept edges. -/
+theorem same_cluster_iff_reach (n : Nat) (edges : List Edge)
+    (hE : ∀ e ∈ edges, e.1 < n ∧ e.2 < n) (i j ci cj : Nat)
+    (hi : (i, ci) ∈ cluster n edges) (hj : (j, cj) ∈ cluster n edges) :
+    ci = cj ↔ Reach (Adj n edges) i j :=
+  Lemmas.same_cluster_iff_reach n edges hE i j ci cj hi hj
+
+/-- A record without a qualifying edge (self loops aside) is a singleton cluster
+labelled by itself. -/
+theorem isolated_is_singleton (n : Nat) (edges : List Edge)
+    (hE : ∀ e ∈ edges, e.1 < n ∧ e.2 < n) (i : Nat)
+    (hiso : ∀ e ∈ edges, (e.1 = i ∨ e.2 = i) → e = (i, i)) :
+    ∀ j c, (j, c) ∈ cluster n edges → (c = i ↔ j = i) :=
+  Lemmas.isolated_is_singleton n edges hE i hiso
 
 /-- Edges enter the graph iff `match_probability >= threshold`; with no
 threshold every edge enters. -/
@@ -40,5 +74,10 @@ theorem threshold_filter {α : Type} (ge : α → α → Bool) (thr : Option α)
 order, an edge 0–4, node 2 isolated) meets the hypotheses and clusters as expected. -/
 example : cluster 6 [(5, 3), (3, 1), (4, 0)] =
     [(0, 0), (1, 1), (2, 2), (3, 1), (4, 0), (5, 1)] := by decide
+
+/-- Non-vacuity with pending updates: the path 4–3–2–1–0 with identity id order
+needs three further passes after the forced first one (counts 2, 1, 0). -/
+example : trace 5 [(4, 3), (3, 2), (2, 1), (1, 0)] = [2, 1, 0] ∧
+    cluster 5 [(4, 3), (3, 2), (2, 1), (1, 0)] = [(0, 0), (1, 0), (2, 0), (3, 0), (4, 0)] := by decide
 
 end SplinkVerif.C05
